@@ -27,6 +27,8 @@ pub struct Owner {
     data: Vec<u8>,
     id: usize,
     panic_in_as_ref: bool,
+    /// what every call after the first answers (a safe AsRef may answer differently per call)
+    alt: Option<Vec<u8>>,
 }
 impl AsRef<[u8]> for Owner {
     fn as_ref(&self) -> &[u8] {
@@ -34,7 +36,10 @@ impl AsRef<[u8]> for Owner {
         if self.panic_in_as_ref {
             panic!("owner as_ref panics");
         }
-        &self.data
+        match &self.alt {
+            Some(a) if owners()[self.id].as_ref_calls > 1 => a,
+            _ => &self.data,
+        }
     }
 }
 impl Drop for Owner {
@@ -156,13 +161,23 @@ pub const R_MKILO: usize = 18;
 /// shared form, sole owner, front offset, and grown in place after the promotion (the control block's Vec still has the
 /// promotion-time length): with_capacity(n+6), put 1+n, split_to(1) dropped, put 2 more
 pub const R_MSHARED_GROWN: usize = 19;
-pub const N_ROOTS: usize = 20;
+/// from_owner with an owner whose as_ref() answers with its 4 exactly-allocated bytes the first time and with a different,
+/// longer buffer on every later call (the documented contract: as_ref is called once and that answer is the view)
+pub const R_BOWNER_FLAKY: usize = 20;
+/// from_owner(Vec<u8>): a plain Vec as the owner (owner-backed all the same: never unique, never converted in place)
+pub const R_BOWNER_VEC: usize = 21;
+/// Bytes::from(Vec) with len n and capacity n + 1 (shared control block from the start; with n = 1024 offsets reach 1023)
+pub const R_BKILO: usize = 22;
+/// BytesMut::with_capacity(32768) + put n: above the 16 KiB original-capacity class
+pub const R_M32K: usize = 23;
+pub const N_ROOTS: usize = 24;
 pub fn root_name(r: usize) -> &'static str {
     [
         "Bytes::new", "Bytes::from_static", "Bytes::from(Vec len==cap)", "Bytes::from(Vec spare)", "Bytes::from(Box<[u8]>)", "Bytes::from_owner",
         "Bytes::copy_from_slice", "Bytes::from(Vec empty, cap 3)", "BytesMut::new", "BytesMut::with_capacity+put", "BytesMut::from(&[u8])", "BytesMut::zeroed",
         "BytesMut::from_iter", "Bytes::from_owner(as_ref panics)", "BytesMut shared+unique+offset", "BytesMut::with_capacity(128)+put", "Bytes::from(Vec cap 128)",
         "Bytes frozen from shared+unique+offset BytesMut", "BytesMut::with_capacity(1024)+put", "BytesMut shared+unique+offset, grown after promotion",
+        "Bytes::from_owner(as_ref answers differently per call)", "Bytes::from_owner(Vec<u8>)", "Bytes::from(Vec len n, cap n+1)", "BytesMut::with_capacity(32768)+put",
     ][r]
 }
 
@@ -244,6 +259,8 @@ pub struct World {
     pub huge_seen: bool,
     /// number of steps of this history that panicked (caught)
     pub panics_seen: u32,
+    /// (address, length, family) of the memory every owner root handed to from_owner
+    pub owner_ranges: Vec<(usize, usize, u32)>,
 }
 
 fn slot_none() -> Option<Slot> {
@@ -266,6 +283,7 @@ impl World {
             cover: 0,
             huge_seen: false,
             panics_seen: 0,
+            owner_ranges: vec![],
         }
     }
 
@@ -436,8 +454,27 @@ impl World {
                         R_BOWNER | R_BOWNER_PANIC => {
                             let id = owners().iter().position(|o| !o.created).unwrap_or(3);
                             owners()[id] = OwnerStat { created: true, as_ref_calls: 0, drops: 0, fam };
-                            let o = Owner { data: d.clone(), id, panic_in_as_ref: kind == R_BOWNER_PANIC };
+                            let o = Owner { data: d.clone(), id, panic_in_as_ref: kind == R_BOWNER_PANIC, alt: None };
                             H::B(Bytes::from_owner(o))
+                        }
+                        R_BOWNER_FLAKY => {
+                            let id = owners().iter().position(|o| !o.created).unwrap_or(3);
+                            owners()[id] = OwnerStat { created: true, as_ref_calls: 0, drops: 0, fam };
+                            let mut alt = Vec::with_capacity(12);
+                            alt.extend_from_slice(&[0xF0, 0xF1, 0xF2, 0xF3, 0xF4, 0xF5, 0xF6, 0xF7, 0xF8, 0xF9, 0xFA, 0xFB]);
+                            let o = Owner { data: d.clone(), id, panic_in_as_ref: false, alt: Some(alt) };
+                            H::B(Bytes::from_owner(o))
+                        }
+                        R_BOWNER_VEC => H::B(Bytes::from_owner(d.clone())),
+                        R_BKILO => {
+                            let mut v = Vec::with_capacity(n + 1);
+                            v.extend_from_slice(&d);
+                            H::B(Bytes::from(v))
+                        }
+                        R_M32K => {
+                            let mut m = BytesMut::with_capacity(32768);
+                            m.put_slice(&d);
+                            H::M(m)
                         }
                         R_BCOPY => H::B(Bytes::copy_from_slice(&d)),
                         R_BVEC_EMPTY_CAP => H::B(Bytes::from(Vec::with_capacity(3))),
@@ -505,9 +542,12 @@ impl World {
                             if kind == R_BSTATIC && n > 0 && h.ptr() != STATIC4.as_ptr() as usize {
                                 self.vio("C07", "from_static-address", format!("from_static view starts at {:#x}, static data at {:#x}", h.ptr(), STATIC4.as_ptr() as usize));
                             }
-                            if (kind == R_BSTATIC || kind == R_BOWNER) && Self::byte_buffer_allocated_excluding_owner(kind, n) {
+                            if (kind == R_BSTATIC || kind == R_BOWNER || kind == R_BOWNER_FLAKY || kind == R_BOWNER_VEC) && Self::byte_buffer_allocated_excluding_owner(kind, n) {
                                 self.vio("C07", "root-copy", format!("{} allocated a byte buffer", root_name(kind)));
                             }
+                        }
+                        if kind == R_BOWNER || kind == R_BOWNER_FLAKY || kind == R_BOWNER_VEC {
+                            self.owner_ranges.push((h.ptr(), h.len(), fam));
                         }
                         self.put(h, model, fam);
                     }
@@ -1386,8 +1426,10 @@ impl World {
     fn byte_buffer_allocated_excluding_owner(kind: usize, n: usize) -> bool {
         // from_owner: the harness builds the owner's Vec inside the window (1 align-1 block of n bytes via d.clone())
         let allocs: Vec<usize> = oracle::events().iter().filter(|e| e.is_alloc && e.align == 1).map(|e| e.size).collect();
-        if kind == R_BOWNER {
+        if kind == R_BOWNER || kind == R_BOWNER_VEC {
             allocs.len() > if n > 0 { 1 } else { 0 }
+        } else if kind == R_BOWNER_FLAKY {
+            allocs.len() > if n > 0 { 2 } else { 1 }
         } else {
             !allocs.is_empty()
         }
@@ -1530,7 +1572,7 @@ impl World {
                     let p = b.as_ptr() as usize;
                     let my_block = if b.is_empty() { None } else { oracle::find_live(p) };
                     let in_region = !b.is_empty() && oracle::find_region(p).is_some();
-                    let owner_backed = my_block.map_or(false, |bi| self.is_owner_block(bi));
+                    let owner_backed = my_block.map_or(false, |bi| self.is_owner_block(bi)) || (!b.is_empty() && self.in_owner_range(p, b.len(), sl.fam));
                     if in_region && uq {
                         v("C08", "static-unique", format!("slot {}: is_unique() is true for static data", i));
                     }
@@ -1577,7 +1619,16 @@ impl World {
         self.vios.extend(out);
     }
 
+    /// the view lies inside the memory an owner root of the same family handed to from_owner (history knowledge, no hook)
+    fn in_owner_range(&self, p: usize, l: usize, fam: u32) -> bool {
+        self.owner_ranges.iter().any(|&(p0, l0, f)| f & fam != 0 && p >= p0 && p + l <= p0 + l0)
+    }
+
     fn is_owner_block(&self, bi: usize) -> bool {
+        let blk = oracle::blocks()[bi];
+        if self.owner_ranges.iter().any(|&(p0, l0, _)| l0 > 0 && p0 >= blk.user && p0 < blk.user + blk.size) {
+            return true;
+        }
         // the owner's Vec is the align-1 block created by the R_BOWNER root; we remember it by family:
         // a block is owner-backed iff some handle of an owner family points into it and the hook says B_OWNED
         for sl in self.slots.iter().flatten() {
